@@ -84,11 +84,11 @@ def to_api_kwargs(kw):
 
 
 OPT2FLAG = {"f": "-f", "n": "-n", "m": "-m", "s": "-s", "a": "-a", "e": "-e", "d": "-d", "R": "-R", "u": "-u", "M": "-M", "r": "-r", "c": "-c", "w": "-w",
-            "L": "-L", "q": "-q", "O": "-O", "o": "-o", "j": "-j"}
+            "L": "-L", "q": "-q", "O": "-O", "o": "-o", "j": "-j", "C": "-C", "E": "-E", "G": "--debug-file", "D": "-D", "T": "-T", "P": "--save-image"}
 LONGFLAG = {"f": "--input-format", "n": "--min-duration", "m": "--max-duration", "s": "--max-silence", "a": "--analysis-window", "e": "--energy-threshold",
             "d": "--drop-trailing-silence", "R": "--strict-min-duration", "u": "--use-channel", "M": "--max-read", "r": "--rate",
             "c": "--channels", "w": "--width", "L": "--large-file", "q": "--quiet", "O": "--save-stream", "o": "--save-detections-as",
-            "j": "--join-detections"}
+            "j": "--join-detections", "C": "--command", "E": "--echo", "G": "--debug-file", "D": "--debug", "T": "--output-format", "P": "--save-image"}
 
 
 def fmt_seconds(units):
@@ -128,8 +128,14 @@ def build_job(idx, vec, tmproot, rng):
     for k in sorted(vec["present"]):
         v = vec["opts"][k]
         flag = (LONGFLAG if long_names else OPT2FLAG)[k]
-        if k in ("d", "R", "L", "q"):
+        if k in ("d", "R", "L", "q", "E", "D"):
             argv.append(flag)
+        elif k == "C":
+            argv += [flag, "consume {file}"]
+        elif k == "G":
+            argv += [flag, os.path.join(d, "debug.log")]
+        elif k == "P":
+            argv += [flag, os.path.join(d, "image.png")]
         elif k in ("n", "m", "s", "a", "M", "j"):
             argv += [flag, fmt_seconds(v)]
         elif k == "O":
@@ -144,7 +150,8 @@ def build_job(idx, vec, tmproot, rng):
         argv += ["--time-format", tf]
     if pf is not None:
         argv += ["--printf", pf]
-    job = {"id": idx, "cwd": d, "argv": argv + (["-"] if kind == "stdin" else [path]), "stdin": path if kind == "stdin" else None}
+    job = {"id": idx, "cwd": d, "argv": argv + (["-"] if kind == "stdin" else [path]), "stdin": path if kind == "stdin" else None,
+           "fx": bool(set(vec["present"]) & {"C", "E", "G", "D", "T", "P"})}
     meta = {"kind": kind, "path": path, "fmt": [fsr, fsw, fch], "tf": tfk, "printf": pf, "dir": d, "data_len": len(data)}
     return job, meta, data
 
@@ -164,11 +171,59 @@ def parse_time(tfk, s):
     return ((h * 60 + mi) * 60 + se) * 1000 + i, [h, mi, se, i], True
 
 
+LOGRE = re.compile(r"^(?:\[[^\]]*\] \| )?\[(DET|SAVE|PLAY|COMMAND)\]: Detection (\d+)(.*)$")
+
+
+def parse_log(text, regs, d, stamped):
+    """log lines -> [[who, id, line_ok]] (who: 0 DET, 1 SAVE, 2 PLAY, 3 COMMAND)"""
+    out = []
+    who = {"DET": 0, "SAVE": 1, "PLAY": 2, "COMMAND": 3}
+    for line in [x for x in text.split("\n") if x.strip()]:
+        m = LOGRE.match(line)
+        if not m or (stamped and not line.startswith("[")):
+            out.append([9, 0, 0])
+            continue
+        tag, did, rest = m.group(1), int(m.group(2)), m.group(3)
+        g = regs[did - 1] if 1 <= did <= len(regs) else None
+        ok = g is not None
+        if ok and tag == "DET":
+            ok = rest == " (start: {:.3f}, end: {:.3f}, duration: {:.3f})".format(g.start, g.end, g.duration)
+        elif ok and tag == "SAVE":
+            ok = rest == " saved as '{}'".format(os.path.join(d, "det_{id}_{start:.3f}_{end:.3f}.wav".format(id=did, start=g.start, end=g.end)))
+        elif ok and tag == "PLAY":
+            ok = rest == " played"
+        elif ok and tag == "COMMAND":
+            ok = rest.startswith(" command: 'consume ") and rest.endswith("'")
+        out.append([who[tag], did, int(bool(ok))])
+    return out
+
+
+def project_fx(fx, r, present, vec, regs, visible, fmt, d, api_kw):
+    import hashlib
+    fsr, fsw, fch = fmt
+    cmds = fx.get("commands", [])
+    commands_ok = len(cmds) == len(regs) and all(c["cmd"] == "consume" and c["exists"] and c["par"] == [fsr, fsw, fch]
+                                                 and c["sha"] == hashlib.sha1(bytes(g)).hexdigest() for c, g in zip(cmds, regs))
+    played = b"".join(bytes.fromhex(x) for x in fx.get("played", []))
+    echo_ok = played == b"".join(bytes(g) for g in regs) and (not regs or fx.get("player_params", [None])[:2] == [fsr, fch])
+    logfile = bool(d) and os.path.exists(os.path.join(d, "debug.log"))
+    log = parse_log(open(os.path.join(d, "debug.log")).read(), regs, d, True) if logfile else []
+    elog = parse_log("\n".join(x for x in r.get("stderr", "").split("\n") if "Detection" in x or x.startswith("[")), regs, d, False) if "D" in present else []
+    plots = fx.get("plots", [])
+    plot_ok = False
+    if len(plots) == 1:
+        p0 = plots[0]
+        plot_ok = (p0["sha"] == hashlib.sha1(visible).hexdigest() and p0["par"] == [fsr, fsw, fch] and p0["save_as"] == "image.png"
+                   and p0["dets"] == [[float(g.start), float(g.end)] for g in regs] and p0["eth"] == api_kw.get("energy_threshold"))
+    return {"ncommands": len(cmds), "commands_ok": bool(commands_ok), "nplayed": len(fx.get("played", [])), "echo_ok": bool(echo_ok), "logfile": bool(logfile),
+            "log": log, "elog": elog, "nplots": len(plots), "plot_ok": bool(plot_ok)}
+
+
 def check(prop, tier, replay=None):
     import_auditok()
     from auditok import core
     V = Verdict(prop, tier)
-    wd = workdir("cli")
+    wd = workdir("cli" + ("fx" if prop == "X04" else ""))
     tmproot = os.path.join(wd, "runs")
     os.makedirs(tmproot, exist_ok=True)
     rng = random.Random(SEED * 1000 + 15)
@@ -179,7 +234,8 @@ def check(prop, tier, replay=None):
         "whole milliseconds (one below an exact integer accepted)",
     ]
     mp = 2 if tier == "quick" else 3
-    cfg = f"CONSTANTS MaxPresent = {mp}\nSPECIFICATION Spec\nINVARIANT Sane\nINVARIANT FieldsOK\nCONSTRAINT Export\nCHECK_DEADLOCK FALSE\n"
+    fxmode = prop == "X04"
+    cfg = f"CONSTANTS MaxPresent = {mp} WithFx = {'TRUE' if fxmode else 'FALSE'}\nSPECIFICATION Spec\nINVARIANT Sane\nINVARIANT FieldsOK\nCONSTRAINT Export\nCHECK_DEADLOCK FALSE\n"
     res = tlc.run("CliMC", cfg, wd, name="mc", timeout=3000, mem="8g", workers=4)
     tlc.require_ok(res, "leg M")
     V.add_model("M", res)
@@ -280,12 +336,18 @@ def check(prop, tier, replay=None):
         nvis = len(data) // bps
         if vec["kw"]["max_read"] >= 0:
             nvis = min(nvis, round(Fraction(vec["kw"]["max_read"], U) * fsr))
+        rawout = vec.get("outfmt", "wav") == "raw"
+
+        def read_out(path_):
+            if rawout:
+                with open(path_, "rb") as f_:
+                    return (fsr, fsw, fch), f_.read()
+            with wave.open(path_) as wf_:
+                return (wf_.getframerate(), wf_.getsampwidth(), wf_.getnchannels()), wf_.readframes(-1)
         if "O" in present and vec["exit"] == 0:
             expected_files.add("stream_out.wav")
             try:
-                with wave.open(os.path.join(d, "stream_out.wav")) as wf:
-                    hdr = (wf.getframerate(), wf.getsampwidth(), wf.getnchannels())
-                    fb = wf.readframes(-1)
+                hdr, fb = read_out(os.path.join(d, "stream_out.wav"))
                 if "j" in present:
                     nsil = round(Fraction(vec["opts"]["j"], U) * fsr)
                     exp = (b"\0" * (nsil * bps)).join(bytes(g) for g in regs)
@@ -299,13 +361,16 @@ def check(prop, tier, replay=None):
                 name = "det_{id}_{start:.3f}_{end:.3f}.wav".format(id=k, start=g.start, end=g.end)
                 expected_files.add(name)
                 try:
-                    with wave.open(os.path.join(d, name)) as wf:
-                        if wf.readframes(-1) != bytes(g) or (wf.getframerate(), wf.getsampwidth(), wf.getnchannels()) != (fsr, fsw, fch):
-                            regions_ok = False
+                    hdr_, fb_ = read_out(os.path.join(d, name))
+                    if fb_ != bytes(g) or hdr_ != (fsr, fsw, fch):
+                        regions_ok = False
                 except Exception:
                     regions_ok = False
+        fxp = project_fx(r.get("fx") or {}, r, present, vec, regs, data[:nvis * bps], (fsr, fsw, fch), d, api_kw)
+        if "G" in present and vec["exit"] == 0:
+            expected_files.add("debug.log")
         extra = [f for f in os.listdir(d) if f not in expected_files]
-        runs.append({"present": sorted(present), "tf": meta["tf"], "exit": r["exit"] if isinstance(r["exit"], int) else -1,
+        runs.append({"hasfx": bool(job.get("fx")), "fx": fxp, "present": sorted(present), "tf": meta["tf"], "exit": r["exit"] if isinstance(r["exit"], int) else -1,
                      "raised": r["raised"] is not None, "lines": lines, "dets": dets, "stream_ok": bool(stream_ok), "joined_ok": bool(joined_ok),
                      "regions_ok": bool(regions_ok), "extra_files": len(extra), "unparsed": unparsed,
                      "info": {"argv": job["argv"][:-1] + [os.path.basename(job["argv"][-1])], "kind": meta["kind"], "fmt": meta["fmt"], "api_kwargs": {k: v for k, v in api_kw.items()},
@@ -329,7 +394,7 @@ def check(prop, tier, replay=None):
             s_, f_, ok_ = parse_time(tfk, fmt(v))
             lines.append({"id": j, "s": s_, "e": s_, "d": 0, "hasd": False, "sf": f_, "ef": f_, "fields_ok": bool(ok_)})
             dets.append({"sn": ms, "sd": 1, "en": ms, "ed": 1, "dn": 0, "dd": 1, "sms": int(v * 1000), "ems": int(v * 1000), "dms": 0})
-        runs.append({"present": [], "tf": tfk, "exit": 0, "raised": False, "lines": lines, "dets": dets, "stream_ok": True, "joined_ok": True,
+        runs.append({"hasfx": False, "fx": project_fx({}, {"stderr": ""}, set(), {"exit": 0}, [], b"", (1, 1, 1), None, {}), "present": [], "tf": tfk, "exit": 0, "raised": False, "lines": lines, "dets": dets, "stream_ok": True, "joined_ok": True,
                      "regions_ok": True, "extra_files": 0, "unparsed": 0,
                      "info": {"argv": [f"make_duration_formatter({tf!r}) on {len(grid)} values up to 100 h"], "kind": "formatter", "fmt": [], "api_kwargs": {},
                               "stdout": " ".join(fmt(ms / 1000) for ms in grid[:6]), "stderr": "", "raised": None, "api_error": None, "extra_files": [], "threads_left": 0}})
@@ -337,10 +402,10 @@ def check(prop, tier, replay=None):
     rows, st = judge("CliTrace", tcfg, runs, wd, "cli", weight=lambda x: len(x["lines"]) + 1, strip=lambda x: {k: v for k, v in x.items() if k != "info"})
     V.cov["states"] += st
     for run, row in zip(runs, rows):
-        if row[2] != 1:
+        if (row[2] in (2, 4)) if not fxmode else (row[2] != 1):
             inf = run["info"]
             V.violation({"argv": inf["argv"], "kind": inf["kind"]},
-                        f"auditok {' '.join(inf['argv'])} ({inf['kind']} input {inf['fmt']}): exit={run['exit']} raised={inf['raised']} stdout={inf['stdout'][:160]!r} "
+                        (f"side effects {run['fx']} -- " if fxmode else "") + f"auditok {' '.join(inf['argv'])} ({inf['kind']} input {inf['fmt']}): exit={run['exit']} raised={inf['raised']} stdout={inf['stdout'][:160]!r} "
                         f"files(stream,joined,regions,extra)={run['stream_ok'], run['joined_ok'], run['regions_ok'], inf['extra_files']} unparsed={run['unparsed']}; "
                         f"API split(**{inf['api_kwargs']}) -> {[(d_['sn'] / d_['sd'], d_['en'] / d_['ed']) for d_ in run['dets']]} (ms){' API error ' + str(inf['api_error']) if inf['api_error'] else ''}",
                         {"leg": "R", "run": run})
@@ -350,6 +415,15 @@ def check(prop, tier, replay=None):
     ex = next((r_ for r_ in runs if len(r_["lines"]) >= 2), runs[0])
     V.sample({"leg": "R", "argv": ex["info"]["argv"], "stdout": ex["info"]["stdout"][:200], "api_detections(ms)": [(d_["sn"] / d_["sd"], d_["en"] / d_["ed"]) for d_ in ex["dets"]]})
     shutil.rmtree(tmproot, ignore_errors=True)
+    if fxmode:
+        rc = V.finish(rule="X04 (beyond the list): option vectors with at least one side-effect option (-C, -E, --debug-file, -D, -T, --save-image); the command "
+                           "line runs with recorded os.system, a fake pyaudio device and a recorded plot(); projections judged by CliTrace!X04")
+        from .common import EVIDENCE, OUT
+        try:
+            shutil.move(os.path.join(EVIDENCE, "X04.json"), os.path.join(OUT, "X04.json"))
+        except OSError:
+            pass
+        return rc
     return V.finish(
         rule="leg M: every option vector with at most MaxPresent options present x palette values; leg R: one command-line execution per vector "
              "(wav / raw / stdin input, short and long option names, three time formats, three printf templates rotate) compared by TLC with the API "
